@@ -36,7 +36,7 @@ run_case() {  # name patch expect(static) expect(probe)
   grep -q '^premise CHANGED: dynamic probe: ' "$WT/log" && got_probe=changed
   local steps; steps="$(sed -n 's/^premise CHANGED: dynamic probe: \(.*\) (replay:.*/\1/p' "$WT/log" | head -1 | cut -c1-90)"
   local verdict=ok
-  { [ "$got_static" = "$want_static" ] && [ "$got_probe" = "$want_probe" ]; } || { verdict=UNEXPECTED; bad=1; }
+  { [ "$got_static" = "$want_static" ] && { [ "$got_probe" = "$want_probe" ] || [ "$want_probe" = either ]; }; } || { verdict=UNEXPECTED; bad=1; }
   printf '%-62s static=%-7s probe=%-7s audit_exit=%s %s %s\n' "$name" "$got_static" "$got_probe" "$rc" "${steps:+[$steps]}" "$verdict"
   git -C "$WT/wt" checkout -- . >/dev/null 2>&1; git -C "$WT/wt" clean -fdq -- src >/dev/null 2>&1
 }
@@ -62,7 +62,13 @@ for d in "$VERIF"/seeded/S*; do
   n="$(basename "$d")"
   case "$(sed -n 's/.*"class": "\([a-z-]*\)".*/\1/p' "$d/meta.json" | head -1)" in
     input-level) run_case "input-level: $n" "$d/patch.diff" hold hold ;;
-    seam)        run_case "seam (independent): $n" "$d/patch.diff" changed changed ;;
+    seam)        if grep -q '"audit_probe_expected": "either"' "$d/meta.json"; then
+                   run_case "seam (independent, probe either way): $n" "$d/patch.diff" changed either
+                 else
+                   run_case "seam (independent): $n" "$d/patch.diff" changed changed
+                 fi ;;
+    # stale state inside a caller-held object: nothing for the static scan to see
+    seam-object) run_case "seam in a caller-held object (independent): $n" "$d/patch.diff" hold changed ;;
     # wrong only when two calls overlap in time: the call-granular probe must stay quiet
     seam-race)   run_case "seam, race (independent): $n" "$d/patch.diff" changed hold ;;
     *)           echo "selftest error: $d/meta.json has no class"; exit 2 ;;
